@@ -16,7 +16,7 @@ Open Scope Z_scope.
 Definition sub_at (off n : nat) (h : list Z) : list Z := firstn n (skipn off h).
 Definition le_at (off n : nat) (h : list Z) : Z := le_decode (sub_at off n h).
 Definition be_at (off n : nat) (h : list Z) : Z := be_decode (sub_at off n h).
-Definition byte_at (off : nat) (h : list Z) : Z := nth off h 0.
+Definition byte_at (off : nat) (h : list Z) : Z := match skipn off h with x :: _ => x | [] => 0 end.
 
 (* two's complement reinterpretation of an unsigned field of the given modulus (2^bits) *)
 Definition to_signed (modulus v : Z) : Z := if v * 2 >=? modulus then v - modulus else v.
@@ -31,6 +31,12 @@ Fixpoint assoc_z {B} (k : Z) (t : list (Z * B)) : option B :=
 Fixpoint assoc_zz {B} (k : Z * Z) (t : list ((Z * Z) * B)) : option B :=
   match t with [] => None
   | ((a, b), v) :: r => if (fst k =? a) && (snd k =? b) then Some v else assoc_zz k r end.
+
+(* Python slicing with bounds taken from the file: clamp BEFORE converting to nat (a 2^60 offset must
+   not be turned into a unary number) *)
+Definition zdrop_c {A} (n : Z) (l : list A) : list A := if zlen l <=? n then [] else zdrop n l.
+Definition ztake_c {A} (n : Z) (l : list A) : list A := if zlen l <=? n then l else ztake n l.
+Definition zslice_c {A} (a b : Z) (l : list A) : list A := ztake_c (b - a) (zdrop_c a l).
 
 Definition b2z (b : bool) : Z := if b then 1 else 0.
 
